@@ -84,7 +84,13 @@ func wireRun(c *mon.Ctx, ri int) {
 	r := c.RandN("c08-wire", ri)
 	wc := wireClocks[ri%len(wireClocks)]
 	ackBatch := 1 + r.IntN(4)
-	e := newConnEnvClock(c, r, connOpts{ackBatch: ackBatch}, func(t *neo.Time) clock.Clock {
+	// two runs out of three use a slow (yielding) id source: same generator, wider
+	// windows between drawing an id and numbering / writing the message
+	yields := []int{0, 1, 3}[ri/len(wireClocks)%3]
+	if ri < len(wireClocks) {
+		yields = []int{0, 1, 3}[ri%3]
+	}
+	e := newConnEnvClock(c, r, connOpts{ackBatch: ackBatch, yieldIDs: yields}, func(t *neo.Time) clock.Clock {
 		return &steppingClock{t: t, steps: wc.steps}
 	})
 	goroutines := 2 + r.IntN(6)
@@ -185,7 +191,7 @@ func wireRun(c *mon.Ctx, ri int) {
 	c.Add("wire_frames", int64(len(frames)))
 	c.Add("wire_ops_completed", opsDone.Load())
 	wit := func(extra map[string]any) map[string]any {
-		w := map[string]any{"level": "wire (frames written by a real mtproto.Conn)", "run": ri, "clock": wc.name, "goroutines": goroutines, "frames": len(frames), "ack_batch": ackBatch}
+		w := map[string]any{"level": "wire (frames written by a real mtproto.Conn)", "run": ri, "clock": wc.name, "goroutines": goroutines, "frames": len(frames), "ack_batch": ackBatch, "id_source_yields": yields}
 		for k, v := range extra {
 			w[k] = v
 		}
